@@ -144,6 +144,8 @@ STRENGTHENED = {
     'C04-w10-c04-m2': 'sessions in which the device hands the same remote id to one stream after the other',
     'C08-w10-c08-m1': 'reported by C16 and C10 as they stood (sync only: early DATA before the OKAY of the RECV request)',
     'C12-w10-c12-m1': 'fault enumeration under fragmented reads: a fault after part of a header or payload was read, then close / connect',
+    'C02-w12-c02-m1': 'reported by C15 as it stood (two short writes in a row for one buffer)',
+    'C20-w12-c20-m2': 'a libusb error inside a single close(), then use after close; TraceUsb: a read or write that succeeds while not connected is C20.UseAfterClose',
     'C14-w9-c14-m1': 'exploration with an OPEN the device refuses, overlapped by other threads\' opens, everyone opening again',
     'C14-w9-c14-m3': 'line-level schedules with a call that raises inside _open (unusable timeouts) next to other opens',
     'C17-w9-c17-m2': 'signers pickled into a fresh child interpreter, then asked to sign',
